@@ -565,6 +565,9 @@ type EqOpts struct {
 	// FloatArrayNaNKind compares float-array elements one by one and keeps only the quiet/signalling
 	// kind of NaN elements (text formats cannot carry NaN payloads).
 	FloatArrayNaNKind bool
+	// FloatArrayNaNAny: a NaN element equals any NaN element (used where elements pass through Go
+	// float conversions that quiet signalling NaNs, e.g. 16-bit floats built as []float32).
+	FloatArrayNaNAny bool
 }
 
 func timeEq(a, b compact_time.Time) bool {
@@ -743,7 +746,7 @@ func arrayBytesEq(at events.ArrayType, a, b []byte, o EqOpts) bool {
 	if bytes.Equal(a, b) {
 		return true
 	}
-	if !o.FloatArrayNaNKind || len(a) != len(b) {
+	if !(o.FloatArrayNaNKind || o.FloatArrayNaNAny) || len(a) != len(b) {
 		return false
 	}
 	var w int
@@ -782,7 +785,7 @@ func arrayBytesEq(at events.ArrayType, a, b []byte, o EqOpts) bool {
 			nanX, quietX = ux&0x7ff0000000000000 == 0x7ff0000000000000 && ux&0xfffffffffffff != 0, ux&(1<<51) != 0
 			nanY, quietY = uy&0x7ff0000000000000 == 0x7ff0000000000000 && uy&0xfffffffffffff != 0, uy&(1<<51) != 0
 		}
-		if !(nanX && nanY && quietX == quietY) {
+		if !(nanX && nanY && (quietX == quietY || o.FloatArrayNaNAny)) {
 			return false
 		}
 	}
